@@ -518,11 +518,40 @@ func runProgram(sc *Scenario, e *env, out map[string]interface{}) {
 			}
 			txns[st.T] = &progTxn{txn: txn, cid: cid, spec: spec}
 			res["start"] = txn.StartTS()
-		case "set":
-			err = pt.txn.Set(key(st.K), []byte(st.V))
-		case "del":
-			err = pt.txn.Delete(key(st.K))
+		case "set", "del":
+			if pt.spec.Pessimistic && st.RV {
+				// rv on a write = "only if this transaction holds the pessimistic lock of the key" (a caller of a
+				// pessimistic transaction writes a key only after its lock-keys call succeeded)
+				fl, e2 := pt.txn.GetMemBuffer().GetFlags(key(st.K))
+				if e2 != nil || !fl.HasLocked() {
+					res["skipped"] = true
+					break
+				}
+			}
+			if st.Op == "set" {
+				err = pt.txn.Set(key(st.K), []byte(st.V))
+			} else {
+				err = pt.txn.Delete(key(st.K))
+			}
 		case "insert":
+			if pt.spec.Pessimistic {
+				// statement-like: buffer the insert in a staging level, lock with the existence check, discard on failure
+				mb := pt.txn.GetMemBuffer()
+				h := mb.Staging()
+				err = mb.SetWithFlags(key(st.K), []byte(st.V), kv.SetPresumeKeyNotExists, kv.SetNewlyInserted)
+				if err == nil {
+					fu, _ := store.CurrentTimestamp(oracle.GlobalTxnScope)
+					pt.lastFU = fu
+					res["for_update"] = fu
+					err = pt.txn.LockKeys(ctx, kv.NewLockCtx(fu, 40, time.Now()), key(st.K))
+				}
+				if err != nil {
+					mb.Cleanup(h)
+				} else {
+					mb.Release(h)
+				}
+				break
+			}
 			err = pt.txn.GetMemBuffer().SetWithFlags(key(st.K), []byte(st.V), kv.SetPresumeKeyNotExists, kv.SetNewlyInserted)
 		case "get":
 			v, e2 := pt.txn.Get(ctx, key(st.K))
@@ -623,7 +652,9 @@ func runProgram(sc *Scenario, e *env, out map[string]interface{}) {
 			if err == nil && st.RV {
 				vals := map[string]interface{}{}
 				for _, k := range st.Ks {
-					if rv, ok := lctx.Values[k]; ok && rv.Exists {
+					if rv, ok := lctx.Values[k]; ok && rv.AlreadyLocked {
+						vals[k] = "<already-locked>"
+					} else if ok && rv.Exists {
 						vals[k] = string(rv.Value)
 					} else {
 						vals[k] = nil
